@@ -180,6 +180,52 @@ def specs(units):
     return S
 
 
+DOC_TABLE = {"AxisymmetricalGeneralisedPlaneStrain": (1, 3, 3), "AxisymmetricalGeneralisedPlaneStress": (1, 3, 3),
+             "Axisymmetrical": (2, 4, 5), "PlaneStress": (2, 4, 5), "PlaneStrain": (2, 4, 5),
+             "GeneralisedPlaneStrain": (2, 4, 5), "Tridimensional": (3, 6, 9)}
+
+
+def table_search(dump):
+    """the hypothesis half of the property evaluated on what the compiled accessors answered:
+    returns the first concrete violation (or None)"""
+    S = {s: (b, f) for (s, b, f) in dump["s"]}
+    names = {}
+    for (v, ts, up, dim, st, te) in dump["h"]:
+        listed = v in dump["hyps"]
+        if listed and ts == "!":
+            return {"input": "enumerator %d" % v, "observed": "toString raises for a hypothesis returned by getModellingHypotheses"}
+        if not listed:
+            if (ts, up, dim, st, te) != ("!",) * 5 and v == max(x for x, _ in dump["enum"]):
+                return {"input": "UNDEFINEDHYPOTHESIS", "observed": {"toString": ts, "dim": dim}, "expected": "every accessor raises"}
+            continue
+        names[ts] = v
+        if ts in S:
+            b, f = S[ts]
+            if f != v:
+                return {"input": "hypothesis %d ('%s')" % (v, ts), "observed": "fromString(toString(h)) = %s" % f, "expected": v}
+            if not b:
+                return {"input": ts, "observed": "isModellingHypothesis('%s') = false for the name of hypothesis %d" % (ts, v)}
+        if up != ts.upper():
+            return {"input": "hypothesis %d" % v, "observed": "toUpperCaseString = %s" % up, "expected": ts.upper()}
+        if ts in DOC_TABLE and (dim, st, te) != tuple(str(x) for x in DOC_TABLE[ts]):
+            return {"input": "hypothesis %s" % ts, "observed": {"getSpaceDimension": dim, "getStensorSize": st, "getTensorSize": te},
+                    "expected_documented": DOC_TABLE[ts]}
+        trow = [t for t in dump["t"] if t[0] == v]
+        if trow and tuple(str(x) for x in trow[0][1:]) != (dim, st, te):
+            return {"input": "hypothesis %s" % ts, "observed": {"compile_time_tables": trow[0][1:], "run_time_functions": (dim, st, te)}}
+    if sorted(dump["hyps"]) != sorted(set(dump["hyps"])) or len(dump["hyps"]) != len(dump["enum"]) - 1:
+        return {"input": "getModellingHypotheses()", "observed": dump["hyps"], "expected": "every enumerator but the last, once"}
+    if set(names) != set(DOC_TABLE):
+        return {"input": "names", "observed": sorted(names), "expected": sorted(DOC_TABLE)}
+    for s, (b, f) in S.items():
+        if (s in names) != b:
+            return {"input": s, "observed": "isModellingHypothesis('%s') = %s" % (s, b), "expected": s in names}
+        if (s in names) != (f is not None) or (f is not None and f != names[s]):
+            return {"input": s, "observed": "fromString('%s') = %s" % (s, "raises" if f is None else f),
+                    "expected": names.get(s, "raises")}
+    return None
+
+
 def probes(rng):
     out = []
     for n in NAMES:
@@ -253,9 +299,12 @@ def run(ck):
         for k in stats:
             stats[k] += s2[k]
     by_unit = {f["unit"]: f for f in found}
+    table_witness = table_search(dump)
     if not res.ok:
         def search(fl):
             thm = (fl.get("theorem") or "")
+            if "C28/Props.lean" in (fl.get("file") or "") or "GenTable" in (fl.get("file") or ""):
+                return table_witness
             cands = sorted([u for u in by_unit if thm == u or thm.startswith(u + "_") or thm.startswith(u)], key=len, reverse=True)
             return by_unit[cands[0]] if cands else None
         ck.lean_violations(res, search)
